@@ -87,7 +87,12 @@ def gen_frame (rng, kind=None, tagged=None, pad=None, payload_len=None,
   elif k == "llc":
     raw = F.eth_8023(dst, src, F.llc(0x42, 0x42, 3, data + b"\0\0\0"), vlan)
   elif k == "snap0":
-    raw = F.eth_8023(dst, src, F.snap(b"\0\0\0", rng.choice([0x88b5, 0x9000]),
+    # (with OUI 0 the SNAP protocol id *is* the frame type, whatever its
+    #  value - also ids below 0x600, which as an Ethernet II type field would
+    #  be a length)
+    raw = F.eth_8023(dst, src, F.snap(b"\0\0\0",
+                                      rng.choice([0x88b5, 0x9000, 0x0100, 0x05ff,
+                                                  0x0001, 0x0600, 0x05fe]),
                                       data), vlan)
   elif k == "snapx":
     raw = F.eth_8023(dst, src, F.snap(b"\0\0\x0c", 0x2000, data), vlan)
